@@ -9,7 +9,7 @@
 (*   short    - the input ends before the extent its own length fields     *)
 (*              declare (so no complete value exists)                      *)
 (***************************************************************************)
-EXTENDS Identity, Mapping, Text
+EXTENDS Structs, Text
 
 Unknown == [known |-> FALSE, ok |-> FALSE, consumed |-> 0, short |-> FALSE]
 Fixed(in, n) == [known |-> TRUE, ok |-> Len(in) >= n, consumed |-> n, short |-> Len(in) < n]
@@ -50,6 +50,23 @@ RefParse(fn, in, e) ==
          LET r == RefIdentity(fn, in) IN
          IF FastPathApplies(fn, r) THEN Of(r) ELSE [known |-> FALSE, ok |-> FALSE, consumed |-> r.consumed, short |-> FALSE]
     [] fn \in {"ReadMapping", "NewMapping"} -> Of(RefReadMapping(in))
+    [] fn \in {"ReadLease", "NewLeaseFromBytes"} -> Of(RefLease(in))
+    [] fn \in {"ReadLease2", "NewLease2FromBytes"} -> Of(RefLease2(in))
+    [] fn \in {"ReadSignature", "NewSignature"} -> Of(RefSignature(in, e.typ))
+    [] fn = "NewSignatureFromBytes" ->
+         LET r == RefSignature(in, e.typ) IN [known |-> TRUE, ok |-> r.ok /\ Len(in) = r.consumed, consumed |-> r.consumed, short |-> r.short]
+    [] fn = "ReadOfflineSignature" -> Of(RefOfflineSig(in, e.typ))
+    [] fn = "ReadRouterAddress" -> Of(RefRouterAddress(in))
+    [] fn = "ReadRouterInfo" -> Of(RefRouterInfo(in))
+    [] fn = "ReadLeaseSet" -> Of(RefLeaseSet(in))
+    [] fn = "ReadDestinationFromLeaseSet" -> Of(RefReadKAC(in))
+    [] fn = "ReadLeaseSet2" -> Of(RefLeaseSet2(in))
+    [] fn = "ReadMetaLeaseSet" -> Of(RefMetaLeaseSet(in))
+    [] fn = "ReadEncryptedLeaseSet" -> Of(RefEncryptedLeaseSet(in))
+    [] fn \in {"ReadSessionKey", "NewSessionKey", "ReadSessionTag", "NewSessionTag"} -> Fixed(in, 32)
+    [] fn = "NewSessionTagFromBytes" -> Exact(in, 32)
+    [] fn \in {"ReadECIESSessionTag", "NewECIESSessionTag"} -> Fixed(in, 8)
+    [] fn = "NewECIESSessionTagFromBytes" -> Exact(in, 8)
     [] OTHER -> Unknown
 
 \* spec-computed class of an input (keys known findings): which leniency class a mapping body falls in
@@ -60,6 +77,7 @@ InputClass(fn, in, e) ==
   CASE fn \in {"ReadMapping", "NewMapping"} -> MappingClass(in)
     [] OTHER -> (IF "cls" \in DOMAIN e THEN e.cls ELSE "-")
 
+
 \* entry points that do not return a remainder
-RefHasRem(fn) == fn \notin {"NewHashFromSlice"}
+RefHasRem(fn) == fn \notin {"NewHashFromSlice", "NewSignatureFromBytes", "ReadLeaseSet", "NewSessionTagFromBytes", "NewECIESSessionTagFromBytes"}
 =============================================================================
